@@ -759,6 +759,9 @@ func (e *Env) call(n *ECall) (Val, types.Type) {
 				t = BVConst(x.V.(*big.Int), sf.Params[i].W, sf.Params[i].Signed)
 			case Term:
 				t = x
+				if sf.Params[i].K == KInt && t.Sort.K != KInt {
+					e.fail("argument %d of %s must be a rank/int value", i, name)
+				}
 				if sf.Params[i].K == KBV && (t.Sort.K != KBV || t.Sort.W != sf.Params[i].W) {
 					e.fail("argument %d of %s: expected %d-bit value, got %s", i, name, sf.Params[i].W, t.Sort.SMT())
 				}
@@ -896,6 +899,8 @@ func parseSortAbbrev(s string) (Sort, error) {
 	switch {
 	case s == "bool":
 		return BoolSort(), nil
+	case s == "rank":
+		return Sort{K: KInt, W: 64, Signed: true}, nil
 	case s == "f32":
 		return FPSort(32), nil
 	case s == "f64":
